@@ -20,7 +20,6 @@ import (
 	"io"
 	"net/http"
 	"net/http/httptest"
-	"os"
 	"strings"
 	"testing"
 	"time"
@@ -201,8 +200,8 @@ func c14LB(b c14Block) string {
 //	6 the params of req labelled with an adjacent height                -> fails iff they differ
 //	7 label beyond the chain (the light client cannot verify it)        -> error
 //	8 LYING LABEL: the genuine params of an adjacent height under that height's label: light/rpc
-//	  verifies them against the header of the LABEL and relays them (finding F66; only generated
-//	  with VERIF_C14_F66=1)
+//	  verifies them against the header of the LABEL and relays them (finding F66, repaired: State() now
+//	  compares them with the header it verified; always generated)
 const c14StubModes = 8
 
 func c14Adjacent(c c14ChainSpec, req int64, up bool) int64 {
@@ -326,7 +325,8 @@ func TestVerifC14Prov(t *testing.T) {
 		}
 		cfgs = append(cfgs, c)
 	}
-	if os.Getenv("VERIF_C14_F66") == "1" {
+	{
+		// regression cases of finding F66 (fixed in /repo 242de00)
 		for _, h := range []uint64{2, 5, 7} {
 			cfgs = append(cfgs, cfg{chain: 0, mode: 8, up: h == 5, h: h, trust: 1})
 		}
